@@ -148,8 +148,20 @@ class LetSubstitution:
     def mutations(self, node):
         if len(node) <= 2:
             return []
+        # names that mean something else inside the body: bound by a binder
+        # there, or by this let itself
+        inner = get_bound_symbols(node[2])
+        bound = inner.union(
+            v[0].data for v in node[1]
+            if not v.is_leaf() and len(v) > 0 and v[0].is_leaf())
         for var in node[1]:
             if any(n == var[0] for n in nodes.dfs(node[2])):
+                if var[0].data in inner or any(
+                        n.is_leaf() and n.data in bound
+                        for n in nodes.dfs(var[1])):
+                    # the variable is re-bound in the body, or the term
+                    # would be captured there
+                    continue
                 subs = nodes.substitute(node[2], {var[0]: var[1]})
                 yield Simplification({node.id: Node(node[0], node[1], subs)},
                                      [])
